@@ -37,6 +37,8 @@ def run(ctx):
     # the background protocol: write stall, flush task, level task, close (spec/background)
     _background.model_check(ctx)
     _background.model_check_failures(ctx)
+    from checks import _ckptcut
+    _ckptcut.stall_wake(ctx)     # the second flusher (create_checkpoint) and the compaction task's wake-up
     _background.teeth(ctx)
     _background.replay_schedules(ctx)
     _background.stall_stress(ctx)
